@@ -21,3 +21,26 @@ pub fn isfst(toks: &[&str]) -> String {
     let b = fst_reader::is_fst_file(&mut f);
     format!("cursor={a} file={b}")
 }
+
+/// `pydump <path>`: the Rust-side view pywellen is compared with: `tt=<list>` then, for every unique
+/// signal's variable (the enumeration pywellen's `all_vars` uses), ` <full name hex>=<signal dump>`
+pub fn pydump(toks: &[&str]) -> String {
+    use wellen::LoadOptions;
+    let o = LoadOptions { multi_thread: false, remove_scopes_with_empty_name: false };
+    let mut w = match wellen::simple::read_with_options(toks[1], &o) {
+        Ok(w) => w,
+        Err(_) => return "err".to_string(),
+    };
+    let vars: Vec<wellen::Var> = w.hierarchy().get_unique_signals_vars().into_iter().flatten().collect();
+    let refs: Vec<wellen::SignalRef> = vars.iter().map(|v| v.signal_ref()).collect();
+    w.load_signals(&refs);
+    let mut out = format!("tt={}", crate::util::nat_list_str(w.time_table()));
+    for v in vars.iter() {
+        let name = v.full_name(w.hierarchy());
+        out.push(' ');
+        out.push_str(&crate::util::to_hex(name.as_bytes()));
+        out.push('=');
+        out.push_str(&crate::dump::signal_str(w.get_signal(v.signal_ref()).unwrap()).replace('=', ":"));
+    }
+    out
+}
